@@ -19,6 +19,75 @@ def _hash_state(m):
     return hash(m.key()) & 0xFFFFFFFFFFFF
 
 
+def relayout_arrays(gs, ps, how):
+    """same values, other storage: 'F' = Fortran-ordered tableau; 'views' = tableau and phase
+    vector as strided views of larger buffers."""
+    n2 = gs.shape[0]
+    if how == "F":
+        return np.asfortranarray(gs), ps
+    big = np.zeros((n2, 2 * n2), dtype=np.int_)
+    big[:, ::2] = gs
+    pb = np.zeros(2 * n2, dtype=np.int_)
+    pb[::2] = ps
+    return big[:, ::2], pb[::2]
+
+
+def warm_layouts():
+    """JIT only: compile, in the tranche parent, the kernel specialisations for every storage
+    layout the worlds produce (chunks run in fresh forks and would otherwise each recompile)."""
+    pc = sut.load()
+    n = 2
+    obs_ref = [((3, 0), 0), ((0, 1), 2)]
+
+    def states():
+        for how in (None, "F", "views", "views_psC"):
+            st = pc.stabilizer_state(sut.mk_list([((3, 3), 0)]))
+            if how:
+                gs, ps = relayout_arrays(np.array(st.gs).copy(), np.array(st.ps).copy(), how.split("_")[0])
+                if how.endswith("psC"):
+                    ps = np.ascontiguousarray(ps)
+                st = pc.StabilizerState(gs=gs, ps=ps, r=int(st.r))
+            yield st
+    for k, _ in enumerate(states()):
+        for via in ("list", "stride", "state", "stateF"):
+            st = list(states())[k]
+            if via == "list":
+                obj = sut.mk_list(obs_ref)
+            elif via == "stride":
+                junk = ((1, 1), 1)
+                obj = sut.mk_list([obs_ref[0], junk, obs_ref[1], junk])[::2]
+            else:
+                o = pc.stabilizer_state(sut.mk_list([((3, 0), 0), ((0, 3), 0)]))
+                if via == "stateF":
+                    gs, ps = relayout_arrays(np.array(o.gs).copy(), np.array(o.ps).copy(), "F")
+                    o = pc.StabilizerState(gs=gs, ps=ps, r=0)
+                obj = o
+            try:
+                st.measure(obj)
+            except Exception:
+                pass
+        for fn in (lambda s: s.rotate_by(sut.mk_pauli(((1, 3), 0))),
+                   lambda s: s.rotate_by(sut.mk_pauli(((1,), 0)), sut.mk_mask([1], n)),
+                   lambda s: s.transform_by(sut.mk_map(rm.identity_images(2))),
+                   lambda s: s.transform_by(sut.mk_map(rm.identity_images(1)), sut.mk_mask([0], n)),
+                   lambda s: pc.MeasureLayer(0, 1, N=n).forward(s),
+                   lambda s: s.expect(sut.mk_list(obs_ref)),
+                   lambda s: s.copy().set_r(0).postselect(sut.mk_pauli(((3, 0), 0)), 0),
+                   lambda s: s.copy(),
+                   lambda s: s.sample(2),
+                   lambda s: s.to_map().inverse(),
+                   lambda s: pc.diagonalize(s.set_r(0)).forward(s),
+                   lambda s: pc.diagonalize(s.set_r(0)).backward(s),
+                   lambda s: s.transform_by(sut.mk_map(rm.identity_images(2))).transform_by(sut.mk_map(rm.identity_images(2))),
+                   lambda s: pc.stabilizer_state(s.stabilizers),
+                   lambda s: s.entropy([0])):
+            st = list(states())[k]
+            try:
+                fn(st)
+            except Exception:
+                pass
+
+
 class RefGate:
     """semantics of one deterministic gate on ascending qubits: images of local X_i,Z_i
     forward and backward (captured or harness-known)."""
@@ -322,7 +391,7 @@ class StateWorld(Run):
         as on the canonical layout."""
         if "view_operand" not in self.cfg["faults"]:
             return None
-        return {"op": "relayout", "slot": self._pick(rng), "how": rng.choice(["F", "colview", "rowview", "psview", "all"])}
+        return {"op": "relayout", "slot": self._pick(rng), "how": rng.choice(["F", "views"])}
 
     def _a_relayout(self, op):
         name, st = self._state(op)
@@ -333,20 +402,7 @@ class StateWorld(Run):
         ps = np.array(st.ps, dtype=np.int_).copy()
         r = int(st.r)
         how = op["how"]
-        if how in ("F", "all"):
-            gs = np.asfortranarray(gs)
-        if how == "colview":
-            big = np.zeros((2 * n, 4 * n), dtype=np.int_)
-            big[:, ::2] = gs
-            gs = big[:, ::2]
-        if how == "rowview":
-            big = np.zeros((4 * n, 2 * n), dtype=np.int_)
-            big[::2] = gs
-            gs = big[::2]
-        if how in ("psview", "all"):
-            pb = np.zeros(4 * n, dtype=np.int_)
-            pb[::2] = ps
-            ps = pb[::2]
+        gs, ps = relayout_arrays(gs, ps, how)
         try:
             new = self.pc.StabilizerState(gs=gs, ps=ps, r=r)
         except Exception as e:
